@@ -530,6 +530,15 @@ def run(ctx):
         if r:
             ctx.oracle_fail(c, r[0], r[1])
         ctx.count(("t", text), True, "termination-probe")
+        # the model on the same document (it stops re-inserting when the value spells the placeholder)
+        ml = wire.run_model([f"read_full l1 {wire.enc_str('/w/root')} native {wire.enc_str(text)} {wire.enc_str('/w/root')} b1 i-1"])[0]
+        ctx.corr_compared += 1
+        ok = ml.startswith("ok SD ")
+        if ok:
+            rd = wire.Reader(ml[len("ok SD "):])
+            ok = expect in repr(rd.tree())
+        if not ok and r is None:
+            ctx.disagree("read_full (reference named like a placeholder)", c, ml[:600], f"returns, result holds {expect!r}")
     none_probe = mk_case(rng, [Node("a", "lit", None), Node("b", "ref", "a")], order=[0, 1], placement=["root", "root"])
     cases.append((none_probe, {"probe"}))
     for c, feats in cases:
